@@ -1369,7 +1369,21 @@ std::string Generator::GeneratorImpl::generateCode(const AnalyserEquationAstPtr 
         break;
     case AnalyserEquationAst::Type::NOT:
         if (mProfile->hasNotOperator()) {
-            code = mProfile->notString() + generateCode(ast->leftChild());
+            auto astLeftChild = ast->leftChild();
+
+            code = generateCode(astLeftChild);
+
+            if (isRelationalOperator(astLeftChild)
+                || isLogicalOperator(astLeftChild)
+                || isPlusOperator(astLeftChild)
+                || isMinusOperator(astLeftChild)
+                || isTimesOperator(astLeftChild)
+                || isDivideOperator(astLeftChild)
+                || isPiecewiseStatement(astLeftChild)) {
+                code = "(" + code + ")";
+            }
+
+            code = mProfile->notString() + code;
         } else {
             code = generateOneParameterFunctionCode(mProfile->notString(), ast);
         }
